@@ -1128,3 +1128,178 @@ impl TxBuilder for SpecTxBuilder {
 		)
 	}
 }
+
+#[cfg(feature = "_verif")]
+#[allow(missing_docs)]
+pub mod verif_hooks {
+	use super::*;
+	use crate::ln::chan_utils::ChannelPublicKeys;
+	use crate::ln::chan_utils::CounterpartyChannelTransactionParameters;
+	use crate::types::payment::PaymentHash;
+	use crate::util::logger::{Logger, Record};
+	use bitcoin::hashes::Hash;
+
+	pub struct NoLog;
+	impl Logger for NoLog {
+		fn log(&self, _record: Record) {}
+	}
+
+	/// 0 = static_remote_key only, 1 = anchors_zero_fee_htlc_tx, 2 = zero-fee commitments
+	pub fn channel_type(tag: u8) -> ChannelTypeFeatures {
+		match tag {
+			0 => ChannelTypeFeatures::only_static_remote_key(),
+			1 => ChannelTypeFeatures::anchors_zero_htlc_fee_and_dependencies(),
+			_ => ChannelTypeFeatures::anchors_zero_fee_commitments(),
+		}
+	}
+
+	fn dirs(htlcs: &[(bool, u64)]) -> Vec<HTLCAmountDirection> {
+		htlcs
+			.iter()
+			.map(|(outbound, amount_msat)| HTLCAmountDirection {
+				outbound: *outbound,
+				amount_msat: *amount_msat,
+			})
+			.collect()
+	}
+
+	pub fn is_dust(
+		outbound: bool, amount_msat: u64, local: bool, feerate_per_kw: u32, dust_limit: u64, tag: u8,
+	) -> bool {
+		HTLCAmountDirection { outbound, amount_msat }.is_dust(
+			local,
+			feerate_per_kw,
+			dust_limit,
+			&channel_type(tag),
+		)
+	}
+
+	pub fn get_dust_buffer_feerate(feerate_per_kw: u32) -> u32 {
+		super::get_dust_buffer_feerate(feerate_per_kw)
+	}
+
+	pub fn get_next_commitment_stats(
+		local: bool, is_outbound_from_holder: bool, channel_value_satoshis: u64,
+		value_to_holder_msat: u64, htlcs: &[(bool, u64)], addl_nondust_htlc_count: usize,
+		feerate_per_kw: u32, assume_fee_spike: bool, dust_exposure_limiting_feerate: Option<u32>,
+		broadcaster_dust_limit_satoshis: u64, tag: u8,
+	) -> Result<(u64, u64, u64), ()> {
+		super::get_next_commitment_stats(
+			local,
+			is_outbound_from_holder,
+			channel_value_satoshis,
+			value_to_holder_msat,
+			&dirs(htlcs),
+			addl_nondust_htlc_count,
+			feerate_per_kw,
+			assume_fee_spike,
+			dust_exposure_limiting_feerate,
+			broadcaster_dust_limit_satoshis,
+			&channel_type(tag),
+		)
+		.map(|s| (s.holder_balance_msat, s.counterparty_balance_msat, s.dust_exposure_msat))
+	}
+
+	pub fn get_available_balances(
+		is_outbound_from_holder: bool, channel_value_satoshis: u64, value_to_holder_msat: u64,
+		htlcs: &[(bool, u64)], feerate_per_kw: u32, dust_exposure_limiting_feerate: Option<u32>,
+		max_dust_htlc_exposure_msat: u64, constraints: [u64; 7], tag: u8,
+	) -> [u64; 6] {
+		let channel_constraints = ChannelConstraints {
+			holder_dust_limit_satoshis: constraints[0],
+			counterparty_selected_channel_reserve_satoshis: constraints[1],
+			counterparty_dust_limit_satoshis: constraints[2],
+			holder_selected_channel_reserve_satoshis: constraints[3],
+			counterparty_htlc_minimum_msat: constraints[4],
+			counterparty_max_htlc_value_in_flight_msat: constraints[5],
+			counterparty_max_accepted_htlcs: constraints[6],
+		};
+		let b = super::get_available_balances(
+			is_outbound_from_holder,
+			channel_value_satoshis,
+			value_to_holder_msat,
+			&dirs(htlcs),
+			feerate_per_kw,
+			dust_exposure_limiting_feerate,
+			max_dust_htlc_exposure_msat,
+			channel_constraints,
+			&channel_type(tag),
+		);
+		[
+			b.inbound_capacity_msat,
+			b.outbound_capacity_msat,
+			b.next_outbound_htlc_limit_msat,
+			b.next_outbound_htlc_minimum_msat,
+			b.dust_exposure_msat,
+			b.next_splice_out_maximum_sat,
+		]
+	}
+
+	/// Runs the real `SpecTxBuilder::build_commitment_transaction` with dummy keys and reads the
+	/// arithmetic back from the real `CommitmentTransaction`:
+	/// `[to_broadcaster_sat, to_countersignatory_sat, nondust count, nondust total msat,
+	/// commit_tx_fee_sat, local_balance_before_fee_msat, remote_balance_before_fee_msat]`
+	pub fn build_commitment_arith(
+		local: bool, is_outbound_from_holder: bool, channel_value_satoshis: u64,
+		value_to_self_msat: u64, htlcs: &[(bool, u64)], feerate_per_kw: u32,
+		broadcaster_dust_limit_satoshis: u64, tag: u8,
+	) -> [u64; 7] {
+		let pk = PublicKey::from_slice(&[2; 33]).unwrap();
+		let dummy_keys = ChannelPublicKeys {
+			funding_pubkey: pk,
+			revocation_basepoint: pk.into(),
+			payment_point: pk,
+			delayed_payment_basepoint: pk.into(),
+			htlc_basepoint: pk.into(),
+		};
+		let params = ChannelTransactionParameters {
+			holder_pubkeys: dummy_keys.clone(),
+			holder_selected_contest_delay: 42,
+			is_outbound_from_holder,
+			counterparty_parameters: Some(CounterpartyChannelTransactionParameters {
+				pubkeys: dummy_keys,
+				selected_contest_delay: 42,
+			}),
+			funding_outpoint: Some(crate::chain::transaction::OutPoint {
+				txid: bitcoin::Txid::from_byte_array([42; 32]),
+				index: 0,
+			}),
+			splice_parent_funding_txid: None,
+			channel_type_features: channel_type(tag),
+			channel_value_satoshis,
+		};
+		let htlcs_in_tx: Vec<HTLCOutputInCommitment> = htlcs
+			.iter()
+			.enumerate()
+			.map(|(i, (offered, amount_msat))| HTLCOutputInCommitment {
+				offered: *offered,
+				amount_msat: *amount_msat,
+				cltv_expiry: 100 + i as u32,
+				payment_hash: PaymentHash([i as u8; 32]),
+				transaction_output_index: None,
+			})
+			.collect();
+		let secp_ctx = Secp256k1::new();
+		let (tx, stats) = SpecTxBuilder {}.build_commitment_transaction(
+			local,
+			42,
+			&pk,
+			&params,
+			&secp_ctx,
+			value_to_self_msat,
+			htlcs_in_tx,
+			feerate_per_kw,
+			broadcaster_dust_limit_satoshis,
+			&NoLog,
+		);
+		[
+			tx.to_broadcaster_value_sat(),
+			tx.to_countersignatory_value_sat(),
+			tx.nondust_htlcs().len() as u64,
+			tx.nondust_htlcs().iter().map(|h| h.amount_msat).sum(),
+			stats.commit_tx_fee_sat,
+			stats.local_balance_before_fee_msat,
+			stats.remote_balance_before_fee_msat,
+		]
+	}
+}
